@@ -27,7 +27,8 @@ RULE = ("breadth-first search over all histories of take/peek/skip/limit/append/
 ASSUMPTIONS = [
   "handles the documented contract forbids reusing (the argument of tee, a stream handed to thub) "
   "are dead and leave the alphabet",
-  "exact rounding ties (n = x.5) are not used: take rounds with rint, skip/limit with round, and "
+  "exact rounding ties (n = x.5) are used for take / peek only, where the library's rint documents them "
+  "(away from zero); skip / limit round with Python's round and are not given ties, and "
   "the property does not say which",
   "operations that cannot terminate by the model (list/take(inf) of an endless handle, a filter "
   "rejecting a whole cycle) are not applied to the real object",
@@ -105,9 +106,9 @@ CONS = {"list": list, "tuple": tuple, "set": set, "deque": deque}
 
 def stream_letters(seq):
   L = []
-  for n in (None, -1, 0, 1, 2, 2.4, 2.6, 5):
-    L.append(("take", n))
-  for n in (None, -1, 0, 1, 2, 2.6, 5):
+  for n in (None, -1, 0, 1, 2, 2.4, 2.5, 2.6, 5, 0.5):
+    L.append(("take", n))       # 2.5 and 0.5: exact ties go away from zero (take rounds with the library's rint)
+  for n in (None, -1, 0, 1, 2, 2.5, 2.6, 5):
     L.append(("peek", n))
   if seq.finite:
     L += [("take", "inf"), ("peek", "inf"), ("list",)]
@@ -128,7 +129,7 @@ def stream_letters(seq):
   return L
 
 
-HUB_LETTERS = [("use",), ("happendto",), ("hthub", 1), ("hthub", 2), ("hpeek", None), ("hpeek", 0), ("hpeek", 2), ("hpeek", 2.6),
+HUB_LETTERS = [("use",), ("happendto",), ("hthub", 1), ("hthub", 2), ("hpeek", None), ("hpeek", 0), ("hpeek", 2), ("hpeek", 2.5), ("hpeek", 2.6),
                ("hpeek", 5), ("hpeek", "inf"), ("hcopy",),
                ("hmap",), ("hfilter",), ("hskip", 1), ("hlimit", 1),
                ("happend",), ("htake",)]
